@@ -1,7 +1,10 @@
 use std::collections::HashMap;
 use std::net::SocketAddrV4;
 use std::num::NonZeroUsize;
+#[cfg(not(mainline_verif))]
 use std::time::{Duration, Instant};
+#[cfg(mainline_verif)]
+use {crate::verif::Instant, std::time::Duration};
 
 use lru::LruCache;
 use tracing::error;
@@ -534,4 +537,49 @@ pub enum Response {
     SignedPeers(Vec<SignedAnnounce>),
     Immutable(Box<[u8]>),
     Mutable(MutableItem),
+}
+
+#[cfg(mainline_verif)]
+impl Core {
+    pub fn verif_snapshot(&self) -> crate::verif::CoreSnapshot {
+        use crate::verif::{node_snapshot, request_kind};
+
+        crate::verif::CoreSnapshot {
+            bootstrap: self.bootstrap.to_vec(),
+            routing_table: self.routing_table.verif_snapshot(),
+            signed_peers_routing_table: self.signed_peers_routing_table.verif_snapshot(),
+            cached_iterative_queries: self
+                .cached_iterative_queries
+                .iter()
+                .map(|(target, cached)| crate::verif::CachedQuerySnapshot {
+                    target: *target,
+                    closest_responding_nodes: cached
+                        .closest_responding_nodes
+                        .iter()
+                        .map(node_snapshot)
+                        .collect(),
+                    dht_size_estimate: cached.dht_size_estimate,
+                    responders_dht_size_estimate: cached.responders_dht_size_estimate,
+                    subnets: cached.subnets,
+                    request_kind: request_kind(&cached.request_type),
+                })
+                .collect(),
+            iterative_queries: self
+                .iterative_queries
+                .values()
+                .map(|query| query.verif_snapshot())
+                .collect(),
+            put_queries: self
+                .put_queries
+                .values()
+                .map(|query| query.verif_snapshot())
+                .collect(),
+            last_table_refresh: self.last_table_refresh.as_nanos(),
+            last_table_ping: self.last_table_ping.as_nanos(),
+            server: self.server.verif_snapshot(),
+            public_address: self.public_address,
+            firewalled: self.firewalled,
+            server_mode: self.server_mode,
+        }
+    }
 }
